@@ -235,6 +235,7 @@ def run(case, res):
         return transforms.compare_rows(exp_rows, rows, outs, min(n, n_ok))
 
     wf = list(case['writer_faults'])
+    wfi = 0
     for name, fn in calls:
         buf = io.StringIO()
         try:
@@ -265,7 +266,8 @@ def run(case, res):
         # writer fault: the k-th write raises
         if name in ('output_to_verilog', 'output_verilog_testbench', 'print_vcd', 'print_trace',
                     'output_to_trivialgraph', 'output_to_firrtl') and not refused and wf:
-            k = wf.pop() % max(1, min(40, buf.getvalue().count('\n')))
+            wfi += 1
+            k = wf[wfi % len(wf)] % max(1, min(40, buf.getvalue().count('\n')))
             fw = world.FaultyWriter(k)
             try:
                 fn(fw)
